@@ -287,7 +287,16 @@ func DrawWorld(t *rapid.T, cfg WorldCfg) (*World, *Drawn) {
 	}
 
 	w.HonestCollateral()
+	// how the caller comes by its options value: built by hand, or verify.DefaultOptions() with every setting filled in
+	w.FromDefault = rapid.IntRange(0, 3).Draw(t, "optionsStartFromDefaultOptions") == 0
+	d.add(w.FromDefault, "options-from-DefaultOptions")
 	if !cfg.Simple {
+		// what the relying party trusts besides the root: nothing, or the issuing CA's certificate too (whole chains end up
+		// in bundles); used wherever a check builds its options without a pool of its own
+		if rapid.IntRange(0, 4).Draw(t, "bundleAlsoListsTheIssuingCA") == 0 {
+			w.PoolExtra = []*Cert{w.PKI.Int}
+			d.add(true, "bundle-also-lists-the-issuing-ca")
+		}
 		upper := rapid.Bool().Draw(t, "upperHex")
 		w.TcbInfo.UpperHex, w.QeID.UpperHex = upper, rapid.Bool().Draw(t, "upperHexQe")
 		d.add(upper || w.QeID.UpperHex, "upper-hex")
